@@ -28,6 +28,12 @@ def _opened_var(e):
         r = strip(rhs)
         if isinstance(r, list) and r and r[0] == "c" and callee(r) in OPENERS and is_var(strip(lhs)):
             return strip(lhs)[2], r
+        # EGioOpenFILE (f) wraps a FILE* the caller supplies: it yields NULL exactly when f is NULL (allocation failure aside), so it is an
+        # opener whenever its argument is a parameter (stdout / stderr and locals that were tested are not)
+        if isinstance(r, list) and r and r[0] == "c" and callee(r) == "EGioOpenFILE" and is_var(strip(lhs)) and r[3]:
+            a = strip(r[3][0])
+            if is_var(a) and isinstance(a[1], str) and a[1].startswith("p"):
+                return strip(lhs)[2], r
     return None
 
 
@@ -40,8 +46,18 @@ def run(prog, scope=None, rule="R-OPENCHK", exceptions=EXCEPT):
         if "_dbl." in f.unit or "_mpf." in f.unit:
             continue
         opened = {}
+        dom_ = None
         for b, i, e in f.elements():
             ov = _opened_var(e)
+            if ov and callee(ov[1]) == "EGioOpenFILE":
+                # the wrapped FILE* was examined before (a NULL test, or a reporting checker whose verdict is tested): the wrapper cannot be NULL
+                from ..core import dominators
+                if dom_ is None:
+                    dom_ = dominators(prog, f)[0]
+                an = strip(ov[1][3][0])[2]
+                if any(d != b["id"] and f.blocks[d].get("c") is not None and any(is_var(nd, name=an) for nd in walk(f.blocks[d]["c"]))
+                       for d in dom_.get(b["id"], ())):
+                    ov = None
             if ov:
                 opened.setdefault(ov[0], []).append((b["id"], i, ov[1]))
         for v, opens in opened.items():
